@@ -141,7 +141,7 @@ let proto_run fn argstr =
   | "p.rt", [ts; vs] ->
       let t = gty_of_sx (parse_sx ts) in
       let v = val_of_sx t (parse_sx vs) in
-      (match marshal (TPtr t) (VPtr (Some v)) with
+      let m = (match marshal (TPtr t) (VPtr (Some v)) with
        | Ok (Some b) ->
            (match unmarshal big_fuel t b (zero_val t) with
             | Ok (Some r) -> canon r
@@ -149,7 +149,14 @@ let proto_run fn argstr =
             | Panic -> "PANIC"
             | OutOfFuel -> "OUTOFFUEL")
        | Ok None -> "err:marshal"
-       | _ -> "PANIC")
+       | _ -> "PANIC") in
+      (* what Proto/Spec.v predicts (roundtrip_statement): checked against the harness oracle *)
+      let inuni = type_ok t && numbers_ok (codec_of t) && wf_val t v in
+      let spec = if not inuni then "NOT-IN-UNIVERSE"
+                 else if representable v && keys_distinct v then
+                   (if m = canon (norm v) then m else "SPEC-REFUTED:" ^ canon (norm v))
+                 else "-" in
+      m ^ "\t" ^ spec
   | "p.mto", [ts; vs; ls] ->
       let t = gty_of_sx (parse_sx ts) in
       let v = val_of_sx t (parse_sx vs) in
